@@ -126,9 +126,10 @@ RULE = ("MC: TLC checks C05_Auth/C05_Secrecy (and the other invariants) on Hands
         "replay/splice) are walked on real Machines for 2 curves x 2 ciphers until every (state, label) pair was executed; distinct = "
         "(graph, combo, state, label). Certificate FORM is a dimension of its own: the adversary's machines send the presented certificate "
         "stripped, complete with its own key, or complete with the adversary's key (v1 and v2 encodings, both curves), and the network embeds/"
-        "replaces/strips the key of a clear stage-1 certificate; a completion is allowed only if the assembled certificate's key is the Noise "
-        "static (where a complete certificate's own key IS the Noise static, completing and refusing are both allowed); the variant without "
-        "that binding (Impl=\"nobind\") must be refuted. D: content tables without certificate (requireComplete). T: seeded random schedules (up to 3+4 honest machines, 4 adversary machines, byte-level random "
+        "replaces/strips the key of a clear stage-1 certificate; a completion is allowed only if the certificate the result reports carries the Noise "
+        "static and that is the key the CA signed for the identity (a complete certificate may be refused, compared, or reassembled around the "
+        "Noise static: completing and refusing are both allowed when the identity holds the Noise static); the variant that reports a complete "
+        "certificate as sent (Impl=\"nobind\") must be refuted. D: content tables without certificate (requireComplete). T: seeded random schedules (up to 3+4 honest machines, 4 adversary machines, byte-level random "
         "truncations/flips) judged by the reference predicates")
 ASSUMPTIONS = [
     "verdicts are one-directional (safety): every completion the real code makes must be allowed by the specification; a refusal "
@@ -137,13 +138,17 @@ ASSUMPTIONS = [
     "key' is bound to the code as: no key held by any adversary machine of the run opens the session's traffic",
     "the verifier is CAPool.VerifyCertificate at a fixed instant (as handshake_manager.certVerifier with time.Now())",
     "header fields other than length and subtype are not interpreted by handshake.Machine (the manager level is C09/C10)",
+    "a payload that carries a COMPLETE certificate (public key embedded): the statement is read on the certificate the result reports; "
+    "refusing it (as cert.Recombine does), comparing the embedded key with the Noise static, or dropping it and assembling the "
+    "certificate around the Noise static all satisfy it; completing with a reported key that is not the Noise static never does",
 ]
 
 C05_OPS = ["id", "hdrflip", "hdr", "after_s", "flip_p", "flip_s", "idx", "sub_e", "splice_e", "splice_p"] + CERT_OPS
 
 
 def run(ctx):
-    vcs = (1, 3) if ctx.quick else (1, 2, 3, 4, 5)
+    # quick: all-v2, and A v1-only against B with both (negotiation; the adversary presents v1 certificates there, v2 in the other)
+    vcs = (1, 4) if ctx.quick else (1, 2, 3, 4, 5)
     # MC: the combined configuration (all four slots at once) - invariants only
     if ctx.quick:
         big = cfg(AI=("XI",), AR=("XR",), adv=("M", "K", "U"), vcs=(1,), ops=["id", "flip_p", "idx", "splice_e", "splice_p", "cert_keep"],
@@ -168,7 +173,7 @@ def run(ctx):
         ctx.require_actions('Deliver', 'AdvInit', 'AdvResp', 'Initiate', 'complete', 'matrix', 'T:Deliver', 'T:complete', 'table:nothing',
                             # the certificate-form dimension: complete certificates reached a reader in both roles, form surgery ran
                             'pk:keep', 'pk:swap', 'form:keep->stage1-reader', 'form:keep->stage2-reader', 'form:swap->stage1-reader',
-                            'form:swap->stage2-reader', 'op:cert_keep', 'op:cert_swap', 'op:cert_strip')
+                            'form:swap->stage2-reader', 'op:cert_keep', 'op:cert_swap', 'op:cert_strip', 'complete-cert:v1', 'complete-cert:v2')
 
 
 META = {
